@@ -117,6 +117,28 @@ def run(tier: str) -> int:
         for p in meta["placements"]:
             stats["placements"][p] = stats["placements"].get(p, 0) + 1
         stats["with_misfit"] += 1 if meta["misfits"] else 0
+    # directed: shorthand keys that differ only in characters an identifier cannot hold (generated class names are built from
+    # sanitised keys, so `x.y` / `x_y` and `a:b_to_c` / `a_to_b:c` meet in one name) — each shorthand must act on its own keys,
+    # in either order, in one pipeline and across pipelines of one process
+    directed = []
+    for k1, k2 in [("run.id", "run_id"), ("m.x", "m_x"), ("x.y.z", "x_y.z"), ("x.y_z", "x_y.z")]:
+        c0 = {k1: "s1", k2: "s2", "a": 7}
+        for x, y in [(k1, k2), (k2, k1)]:
+            directed.append(([{"processor": f"delete:{x}"}, {"processor": f"delete:{y}"}], c0))
+            directed.append(([{"processor": f"delete:{x}"}], c0))
+            directed.append(([{"processor": f"rename:{x}:out1"}, {"processor": f"rename:{y}:out2"}], c0))
+            directed.append(([{"processor": f"rename:a:{x}"}], {"a": 7}))
+            directed.append(([{"processor": f"rename:a:{y}"}], {"a": 7}))
+    c0 = {"a": "s1", "a_to_b": "s2"}
+    directed.append(([{"processor": "rename:a:b_to_c"}, {"processor": "rename:a_to_b:c"}], c0))
+    directed.append(([{"processor": "rename:a_to_b:c"}, {"processor": "rename:a:b_to_c"}], c0))
+    directed.append(([{"processor": "rename:a_to_b:c"}], c0))
+    directed.append(([{"processor": "rename:a:b_to_c"}], c0))
+    for nodes, ctx0 in directed:
+        cases.append((nodes, ctx0, {"kinds": ["directed"], "placements": [], "misfits": 0}))
+        reqs.append({"m": "c01.run", "id": len(cases) - 1, "nodes": [pipegen.model_node(n) for n in nodes],
+                     "ctx": [[k, pipegen.enc(v)] for k, v in ctx0.items()]})
+    stats["directed_sanitised_name_twins"] = len(directed)
     model = None
     try:
         ans = core.Driver().run(reqs)
